@@ -403,11 +403,11 @@ func run(b *harness.B) {
 
 	// per-type budgets (case counts, never wall clock)
 	nRound := b.Pick(24, 1600) // values per type per batch
-	nInfl := b.Pick(3, 40)     // of which get the field-influence sweep
-	nTrunc := b.Pick(3, 40)    // of which get the truncation sweep
+	nInfl := b.Pick(3, 32)     // of which get the field-influence sweep
+	nTrunc := b.Pick(3, 32)    // of which get the truncation sweep
 	maxPaths := b.Pick(400, 1500)
 	if race {
-		nRound, nInfl, nTrunc, maxPaths = b.Pick(6, 200), b.Pick(1, 5), b.Pick(1, 5), 150
+		nRound, nInfl, nTrunc, maxPaths = b.Pick(6, 100), b.Pick(1, 4), b.Pick(1, 4), 150
 	}
 	sampled := 0
 	for ei := range reg {
